@@ -25,6 +25,7 @@ pub mod canon;
 pub mod cbor;
 pub mod plutus;
 pub mod pipeline;
+pub mod sem;
 pub mod shape;
 pub mod store;
 pub mod tirb;
